@@ -66,6 +66,8 @@ type Contract struct {
 	Props    []string
 	Inline   bool // never use this contract at call sites: inline instead
 	Assumes  []Clause
+	Interferes   []string // cells another goroutine may change at any time (havocked at call sites before the contract applies)
+	Rely         []Clause // what that interference respects: old(...) is the state before it, plain names the state after
 	EntryAssumes []Clause // assumed at entry when the body is verified; NOT an obligation at call sites (modelling conventions)
 	NoBody   bool // contract is assumed, body not verified (trusted)
 	Reads    []string
@@ -294,6 +296,15 @@ func (cs *ContractSet) parseFile(file, pkg string) error {
 			case "entry-assume":
 				curLoop = nil
 				newClause(&cur.EntryAssumes)
+			case "interferes":
+				for _, m := range strings.Split(rest, ",") {
+					if m = strings.TrimSpace(m); m != "" {
+						cur.Interferes = append(cur.Interferes, m)
+					}
+				}
+			case "rely":
+				curLoop = nil
+				newClause(&cur.Rely)
 			case "must_fail":
 				curLoop = nil
 				newClause(&cur.MustFail)
